@@ -149,7 +149,7 @@ def run(ctx):
         zsum = {((p, 'Z'),): 1.0 for p in range(n)}
         add('richardson_gaudin', '(pauli_equiv %s %s && qcomm_zero %s %s)' % (coq_qop(q), coq_qop_terms(spec), coq_qop(q), coq_qop_terms(zsum)), {'call': 'RichardsonGaudin', 'g': g, 'n_qubits': n}, key=n)
     # ---- jellium family (float coefficients): structure, constants, equivalent constructions
-    def dual_spec(A, lengths, grid, spinless):
+    def dual_spec(A, lengths, grid, spinless, non_periodic=False, period_cutoff=None):
         """dual-basis jellium of arXiv:1706.00023 built from the cell matrix A (cell vectors = columns) alone:
         sum_{a,b,s} T(b-a) a+_{a s} a_{b s} + sum_{(a,s) != (b,s')} V(b-a) n_{a s} n_{b s'}, with
         T(d) = sum_{k != 0} k^2 cos(k.r_d) / (2N), V(d) = (2 pi / Omega) sum_{k != 0} cos(k.r_d) / k^2,
@@ -167,7 +167,9 @@ def run(ctx):
                     k2 = float(k.dot(k))
                     if k2 == 0: continue
                     ph = 2 * np.pi * sum((v[i] - lengths[i] // 2) * (b[i] - a[i]) / lengths[i] for i in range(dimn))
-                    T += k2 * np.cos(ph) / (2.0 * Np); V += (2 * np.pi / omega) * np.cos(ph) / k2
+                    fac = 1.0
+                    if non_periodic: fac = 1.0 - np.cos((period_cutoff if period_cutoff is not None else omega ** (1.0 / dimn)) * np.sqrt(k2))   # truncated Coulomb kernel of the docstring option
+                    T += k2 * np.cos(ph) / (2.0 * Np); V += fac * (2 * np.pi / omega) * np.cos(ph) / k2
                 for sa in spins:
                     oa, ob = grid.orbital_id(a, sa), grid.orbital_id(b, sa)
                     d[((oa, 1), (ob, 0))] = d.get(((oa, 1), (ob, 0)), 0.0) + T
@@ -209,6 +211,28 @@ def run(ctx):
             dualm = jellium_model(grid, spinless, False, False)
             add('dual_basis_docstring', '(fermi_close %s %s %s)' % (EPS2, coq_fop(of.normal_ordered(dualm)), coq_fop(of.normal_ordered(mk_fermion(of, spec)))),
                 {'call': 'jellium_model(plane_wave=False) vs arXiv:1706.00023 formula from the cell matrix', 'grid': [dim, repr(length)], 'scale': repr(A.tolist()), 'spinless': spinless}, key=(dim, repr(length), kind, spinless))
+            # options: non_periodic (truncated Coulomb kernel, default and explicit period_cutoff) and e_cutoff
+            from openfermion.hamiltonians import plane_wave_kinetic
+            for rc in (None, 1.5):
+                dnp = jellium_model(grid, spinless, False, False, None, True, rc)
+                add('dual_basis_docstring_non_periodic', '(fermi_close %s %s %s)' % (EPS2, coq_fop(of.normal_ordered(dnp)), coq_fop(of.normal_ordered(mk_fermion(of, dual_spec(A, lengths, grid, spinless, True, rc))))),
+                    {'call': 'jellium_model(plane_wave=False, non_periodic=True)', 'grid': [dim, repr(length), kind], 'scale': repr(A.tolist()), 'spinless': spinless, 'period_cutoff': rc}, key=(dim, repr(length), kind, spinless, rc))
+                pnp = jellium_model(grid, spinless, True, False, None, True, rc)
+                d24np = (kind == 's' and any(L % 2 == 0 for L in lengths) and any(L > 2 for L in lengths))
+                add('fourier_pairing_non_periodic', '(fermi_close %s %s %s)' % (EPS2, coq_fop(of.normal_ordered(of.fourier_transform(pnp, grid, spinless))), coq_fop(of.normal_ordered(dnp))),
+                    {'call': 'fourier_transform(jellium plane wave, non_periodic) vs dual basis', 'grid': [dim, repr(length), kind], 'scale': repr(A.tolist()), 'spinless': spinless, 'period_cutoff': rc, 'finding': 'D24' if d24np else None},
+                    key=(dim, repr(length), kind, spinless, rc))
+            Bm = 2 * _np.pi * _np.linalg.inv(A).T
+            k2s = {v: float(sum((v[i] - lengths[i] // 2) * Bm[:, i] for i in range(dim)).dot(sum((v[i] - lengths[i] // 2) * Bm[:, i] for i in range(dim)))) for v in itertools.product(*[range(L) for L in lengths])}
+            for ecut in (None, sorted(k2s.values())[len(k2s) // 2] / 2.0 + 1e-6, max(k2s.values()) / 2.0 + 1.0):
+                kin = plane_wave_kinetic(grid, spinless, ecut)
+                spec_k = {}
+                for v, k2 in k2s.items():
+                    if ecut is not None and k2 / 2.0 > ecut: continue
+                    for sp in ([None] if spinless else [0, 1]):
+                        o = grid.orbital_id(v, sp); spec_k[((o, 1), (o, 0))] = spec_k.get(((o, 1), (o, 0)), 0.0) + k2 / 2.0
+                add('plane_wave_kinetic_cutoff', '(fermi_close %s %s %s)' % (EPS2, coq_fop(kin), coq_fop_terms({t: c for t, c in spec_k.items() if c != 0})),
+                    {'call': 'plane_wave_kinetic', 'grid': [dim, repr(length), kind], 'scale': repr(A.tolist()), 'spinless': spinless, 'e_cutoff': ecut}, key=(dim, repr(length), kind, spinless, ecut))
             madelung = 2.8372 / grid.volume_scale() ** (1.0 / dim)
             for pw in (True, False):
                 a = jellium_model(grid, spinless, pw, True); b = jellium_model(grid, spinless, pw, False)
